@@ -1147,6 +1147,8 @@ def _vectorfield(repo, col, R="R-C01-explicit"):
     if r is None:
         raise AnalysisError("_voltage_vectorfield has no return")
     from sa.termalg import term_rat
+    from sa.terms import fuse_comprehensions as _fuse_v
+    r = _fuse_v(idxm.inline(repo, fi, r, value_only=True))   # local helpers that build the conductance rows are looked through
     # peel the chain  base.at[s].add(x).at[s'].add(y)
     adds = []
     t = r
@@ -1439,7 +1441,14 @@ def _levels(repo, col, R="R-C01-levels"):
         lv_side = next(a_ for a_ in flt.args if (a_.op == "sub" and is_levels(a_.args[0])) or is_levels(a_))
         l_side = next(a_ for a_ in flt.args if a_ is not lv_side)
         vector = is_levels(lv_side)
+        contiguous = row.args[1].op == "slice" and any(b_.op != "const" for b_ in row.args[1].args)
+        col.check(not contiguous, R, fi, "the rows of a level are selected by the level filter itself", "rows of ALL branches b with levels[b] == l",
+                  f"the rows are taken as one contiguous range `{row.short(90)}`: the branches of one level are adjacent only in breadth-first "
+                  f"listings; for a depth-first listing such as parents [-1, 0, 1, 0] the range covers branches of other levels and leaves "
+                  f"out branches of this one", node=fi.node)
         try:
+            if contiguous:
+                raise Und("contiguous range")
             if vector:
                 # rows = table[np.where(levels == l)[0] - 1]: the branch indices are the positions where the filter holds
                 pos = T.find(row.args[1], lambda x: is_positions(x, flt))
@@ -1456,7 +1465,9 @@ def _levels(repo, col, R="R-C01-levels"):
                 rng = (rng[0] + sh, rng[1] + sh) if sh.is_const() else None
         except Und:
             off, rng = None, None
-        if off is None or rng is None or not off.is_const():
+        if contiguous:
+            pass
+        elif off is None or rng is None or not off.is_const():
             col.unk(R, fi, "compute_children_in_level: row selection and level filter", f"row {row.short(60)} / filter {flt.short(80)}", node=fi.node)
         else:
             col.check(off.eq(Rat.const(-1)), R, fi, "branch b of level l contributes row b-1 of the (child branch, branch point) table",
